@@ -231,7 +231,7 @@ func c04Case(r *mon.Run, jr *rand.Rand, key *world.Key, cred *world.Cred, kss *k
 
 	var proof *gabi.ProofD
 	var tsA *big.Int
-	var tsDisclosed []*big.Int
+	var tsDisclosed, tsEarly []*big.Int
 	var err error
 	var ok bool
 	pv, stack := mon.Try(func() {
@@ -244,6 +244,9 @@ func c04Case(r *mon.Run, jr *rand.Rand, key *world.Key, cred *world.Cred, kss *k
 		if err != nil {
 			return
 		}
+		// the timestamp-request contribution may be asked for at any point of the builder's life: before the commitment ...
+		tsA0, tsD0 := b.TimestampRequestContributions()
+		tsEarly = append([]*big.Int{tsA0}, tsD0...)
 		var list gabi.ProofList
 		if kss != nil {
 			list, err = kss.prove(gabi.ProofBuilderList{b}, ctx, nonce, issig)
@@ -335,6 +338,24 @@ func c04Case(r *mon.Run, jr *rand.Rand, key *world.Key, cred *world.Cred, kss *k
 		if len(tsDisclosed) != len(cred.C.Attributes) {
 			fail("C04/timestamp-length", "timestamp contribution has the wrong number of slots", nil)
 		}
+	}
+	if tsEarly != nil {
+		// ... and must then show the same (randomised A, disclosed values, zeros for everything hidden) as afterwards
+		if len(tsEarly) != len(cred.C.Attributes)+1 {
+			fail("C04/timestamp-length", "timestamp contribution requested before the commitment has the wrong number of slots", nil)
+		}
+		for i, v := range tsEarly[1:] {
+			if wantD[i] || v == nil {
+				continue
+			}
+			if v.Sign() != 0 {
+				fail("C04/timestamp-contains-hidden-slot/before-commit", fmt.Sprintf("timestamp contribution requested BEFORE the commitment has a non-zero slot %d although the attribute is hidden", i), map[string]any{"slot": i, "value": dumpInt(v)})
+			}
+		}
+		if tsA != nil && tsEarly[0].Cmp(tsA) != 0 {
+			fail("C04/timestamp-A-changes", "the randomised signature element reported before and after the commitment differs", nil)
+		}
+		ints = append(ints, tsEarly...)
 	}
 	r.Eval("leakscan", "accept")
 	for _, i := range wantH {
